@@ -25,7 +25,11 @@ def world(env):
     u = m.Symbol("u", mk_type(env, B2))
     h = m.Symbol("h", mk_type(env, ("Fun", BOOL, (BOOL,))))
     c1, c2 = m.Symbol("c1", mk_type(env, SORT_S)), m.Symbol("c2", mk_type(env, SORT_S))
-    F = {"p": p, "q|p": m.Or(q, p), "u=1": m.Equals(u, m.BV(1, 2)), "h(p)": m.Function(h, [p]),
+    PI, PB = ("Sort", "P", (("BV", 2),)), ("Sort", "P", (BOOL,))
+    pa, pb = m.Symbol("pa", mk_type(env, PI)), m.Symbol("pb", mk_type(env, PI))
+    pc, pd = m.Symbol("pc", mk_type(env, PB)), m.Symbol("pd", mk_type(env, PB))
+    F = {"pa=pb": m.Equals(pa, pb), "pc=pd": m.Equals(pc, pd),
+         "p": p, "q|p": m.Or(q, p), "u=1": m.Equals(u, m.BV(1, 2)), "h(p)": m.Function(h, [p]),
          "!p": m.Not(p), "c1=c2": m.Equals(c1, c2), "!q": m.Not(q), "u<2": m.BVULT(u, m.BV(2, 2))}
     T = {"p": p, "q": q, "u": u, "u+1": m.BVAdd(u, m.BV(1, 2)), "q&p": m.And(q, p)}
     return F, T
@@ -34,8 +38,8 @@ def world(env):
 EVENTS_Q = [("add", "p"), ("add", "q|p"), ("add", "u=1"), ("add", "!p"), ("push", 1), ("push", 2), ("pop", 1),
             ("pop", 2), ("reset",), ("solve",), ("value", "p"), ("value", "u+1"), ("model",), ("is_sat", "!q")]
 EVENTS_T = EVENTS_Q + [("add", "h(p)"), ("add", "u<2"), ("value", "q&p"), ("is_valid", "q|p"), ("is_unsat", "!p")]
-EVENTS_SORT = [("add", "c1=c2"), ("add", "p"), ("push", 1), ("push", 2), ("pop", 1), ("pop", 2), ("reset",),
-               ("solve",), ("is_sat", "c1=c2")]
+EVENTS_SORT = [("add", "c1=c2"), ("add", "pa=pb"), ("add", "pc=pd"), ("push", 1), ("push", 2), ("pop", 1), ("pop", 2),
+               ("reset",), ("solve",), ("is_sat", "c1=c2"), ("is_sat", "pc=pd")]
 
 
 def truth(forms):
